@@ -136,6 +136,16 @@ static void handler(const Line& t, Out& o) {
     cpc_sketch& s = gets(t.at(1)); uint64_t a = (uint64_t)t.at(2), n = (uint64_t)t.at(3);
     try { for (uint64_t i = 0; i < n; i++) s.update(a + i); } catch (...) { sk.erase((long)t.at(1)); throw; }
     o.R(1); break; }
+  case 9: { // content digest without building the matrix (for large lg_k): scalars, number of table items, FNV hashes of the sorted table and of the window
+    const cpc_sketch& s = gets(t.at(1));
+    o.R(s.get_lg_k()); o.R(s.get_num_coupons()); o.R((int)s.determine_flavor()); o.R(s.window_offset); o.R(s.first_interesting_column);
+    std::vector<uint32_t> v = items_sorted(s);
+    uint64_t h = 1469598103934665603ULL;
+    for (uint32_t x : v) { h ^= x; h *= 1099511628211ULL; }
+    uint64_t hw = 1469598103934665603ULL;
+    for (uint8_t b : s.sliding_window) { hw ^= b; hw *= 1099511628211ULL; }
+    o.R((I)v.size()); o.R((I)h); o.R((I)hw);
+    break; }
   case 30: { // compressed image of sketch r: table_num_entries, table words, window words
     const cpc_sketch& s = gets(t.at(1));
     typedef std::allocator<uint8_t> A;
